@@ -163,9 +163,19 @@ def _observe(m, v, wf_ok):
     return None
 
 
+# histories of length 3 that once failed (found by the thorough tier), run in the quick tier as well
+E2_FIXED_HISTORIES = (
+    ['+ AnsiString(Z,32)', 'apply(31,1,3)', '+= self'],
+    ['+ AnsiString(Z,32)', 'apply(31,1,3)', 'join(v, x, v)'],
+    ['apply(31,1,3)', '+ AnsiString(Z,32)', '+= self'],
+)
+
+
 def e2_items(tier):
     # (start value index, first operation index): the remaining operations of the history are enumerated inside the item
-    return [[r, o, 2 if tier == 'quick' else 3] for r in range(9) for o in range(76)]
+    out = [[r, o, 2 if tier == 'quick' else 3] for r in range(9) for o in range(76)]
+    out += [[r, h, 'fixed'] for r in range(9) for h in range(len(E2_FIXED_HISTORIES))]
+    return out
 
 
 def e2_task(envr, item):
@@ -176,13 +186,17 @@ def e2_task(envr, item):
         m = envr.program.modules['ansi_string'].native
         wf_ok = envr.clause_native['wf_ok']
         ops = _ops(m)
-        if oi >= len(ops):
+        if depth != 'fixed' and oi >= len(ops):
             c.record('history-closure', True, 'native-enumeration', 'no such operation index')
             return
         count = 0
         bad = None
-        for rest in itertools.product(range(len(ops)), repeat=depth - 1):
-            seq = (oi,) + rest
+        if depth == 'fixed':
+            labels = [o[0] for o in ops]
+            seqs = [tuple(labels.index(lb) for lb in E2_FIXED_HISTORIES[oi])]
+        else:
+            seqs = ((oi,) + rest for rest in itertools.product(range(len(ops)), repeat=depth - 1))
+        for seq in seqs:
             v = native_receivers(envr)[ri].copy()
             trail = [concretize.describe(v)]
             for step, k in enumerate(seq):
@@ -228,7 +242,7 @@ def e2_task(envr, item):
                 'pre': {'self': concretize.describe(native_receivers(envr)[ri]), 'args': hist, 'kwargs': {}},
                 'failed_clauses': ['history-closure (%s)' % msg], 'result': None, 'exception': None, 'post_self': None})
         else:
-            c.record('history-closure', True, 'native-enumeration', '%d histories of length %d' % (count, depth))
+            c.record('history-closure', True, 'native-enumeration', '%d histories of length %s' % (count, depth))
     return ContractRun(body, [], replayable=False)
 
 
